@@ -9,6 +9,7 @@ harness-side model of its scene (duration, last speak, sounds).
 """
 from __future__ import annotations
 
+import copy
 import io
 import json
 import os
@@ -131,6 +132,21 @@ def laws(x: Any, write: Callable[[Any], Any], read: Callable[[Any], Any], snappe
     return w1, y
 
 
+def edit_law(run, y: Any, edit: Callable[[Any], None], write: Callable[[Any], Any], read: Callable[[Any], Any],
+             snapper: Callable[[Any], Any]) -> None:
+    """History: the value that was read back is edited through its public attributes, written and read again: the output
+    describes the value as it is NOW (nothing is remembered from the parse or from the first write)."""
+    _call('edit', lambda: edit(y))
+    want = snapper(y)
+    w = _call('write-after-edit', lambda: write(y))
+    z = _call('read-after-edit', lambda: read(w), w)
+    d = G.first_diff(want, _call('read-after-edit', lambda: snapper(z), w))
+    if d:
+        raise Failure('edit', f'after editing the parsed value, read(write(y)) differs from y at {d["path"]}: want {d["want"]!r} got {d["got"]!r}',
+                      {'diff': d, 'output': _show(w)})
+    run.count('values_rewritten_after_edits')
+
+
 def _where(a: Any, b: Any) -> str:
     n = next((i for i, (p, q) in enumerate(zip(a, b)) if p != q), min(len(a), len(b)))
     return f' (first difference at offset {n}; lengths {len(a)}/{len(b)})'
@@ -193,7 +209,22 @@ def classify_cmdseq(f: Failure) -> str:
 def eng_cmdseq(run, rng, case) -> Tuple[Any, bool]:
     x = G.gen_cmdseq(rng)
     case['value'] = G.snap_cmdseq(x)
-    w1, _ = laws(x, cmdseq_write, cmdseq_read, G.snap_cmdseq)
+    w1, y = laws(x, cmdseq_write, cmdseq_read, G.snap_cmdseq)
+
+    def edit(seqs) -> None:
+        for name, cmds in list(seqs.items())[:2]:
+            for c in cmds[:2]:
+                c.enabled = not c.enabled
+                c.args = (c.args + ' -edited')[:200]
+                c.ensure_file = None if c.ensure_file is not None else 'out.bsp'
+            if cmds:
+                cmds.append(copy.copy(cmds[0]))
+                del cmds[0]
+        if seqs:
+            first = next(iter(seqs))
+            seqs[first[:100] + ' 2'] = seqs.pop(first)
+    if rng.random() < 0.5:
+        edit_law(run, y, edit, cmdseq_write, cmdseq_read, G.snap_cmdseq)
     n_cmds = sum(len(c) for c in x.values())
     if len(w1) != 31 + 4 + 4 + 132 * len(x) + struct.calcsize('Bi260s260sii260sii') * n_cmds:
         raise Failure('layout', f'output is {len(w1)} bytes for {len(x)} sequences / {n_cmds} commands')
@@ -598,7 +629,20 @@ def classify_snd(f: Failure, text: Optional[str]) -> str:
 def eng_snd(run, rng, case) -> Tuple[Any, bool]:
     x = G.gen_sounds(rng)
     case['value'] = snap_sounds(x)
-    laws(x, snd_write, snd_read, snap_sounds)
+    _, y = laws(x, snd_write, snd_read, snap_sounds)
+
+    def edit(sounds) -> None:
+        from srctools.keyvalues import Keyvalues
+        for s_ in sounds[:2]:
+            s_.volume = (0.25, 0.75)
+            s_.pitch = (s_.pitch[1], s_.pitch[1])
+            s_.sounds.append('edited/added.wav')
+            if len(s_.sounds) > 2:
+                del s_.sounds[0]
+            s_.stack_update = Keyvalues('', [Keyvalues('edited_op', [Keyvalues('input', '1.0')])])
+            s_.stack_start = Keyvalues('', [])
+    if rng.random() < 0.5:
+        edit_law(run, y, edit, snd_write, snd_read, snap_sounds)
     if any(s.volume[0] != s.volume[1] or s.level[0] != s.level[1] or s.pitch[0] != s.pitch[1] for s in x):
         run.count('sndscript_ranges')
     return case['value'], any(G.sound_nontrivial(s) for s in x)
@@ -642,7 +686,22 @@ def classify_vmt(f: Failure) -> str:
 def eng_vmt(run, rng, case) -> Tuple[Any, bool]:
     x = G.gen_material(rng)
     case['value'] = G.snap_material(x)
-    laws(x, vmt_write, vmt_read, G.snap_material)
+    _, y = laws(x, vmt_write, vmt_read, G.snap_material)
+
+    def edit(mat) -> None:
+        from srctools.keyvalues import Keyvalues
+        keys = list(mat)
+        if keys:
+            mat[keys[0].upper()] = 'edited value'      # an existing parameter, addressed in another letter case
+        if len(keys) > 1:
+            del mat[keys[-1]]
+        mat['$edited_param'] = '[1 0 0]'
+        mat.shader = mat.shader + 'Edited' if mat.shader.isidentifier() else 'EditedShader'
+        mat.blocks.append(Keyvalues('edited_block', [Keyvalues('$k', 'v')]))
+        if mat.proxies:
+            del mat.proxies[0]
+    if rng.random() < 0.5:
+        edit_law(run, y, edit, vmt_write, vmt_read, G.snap_material)
     return case['value'], bool(x.blocks or x.proxies)
 
 
@@ -767,7 +826,21 @@ def classify_smd(f: Failure) -> str:
 def eng_smd(run, rng, case) -> Tuple[Any, bool]:
     x = G.gen_mesh(rng)
     case['value'] = G.snap_mesh(x)
-    laws(x, smd_write, smd_read, G.snap_mesh)
+    _, y = laws(x, smd_write, smd_read, G.snap_mesh)
+
+    def edit(mesh) -> None:
+        for tri in mesh.triangles[:2]:
+            tri.mat = 'edited/material'
+            for v in tri:
+                v.pos.x = round(v.pos.x + 8.0, 3)
+                v.tex_u = 0.25
+        if len(mesh.triangles) > 2:
+            del mesh.triangles[-1]
+        for frame in mesh.animation.values():
+            for pose in frame[:1]:
+                pose.position.z = round(pose.position.z + 4.0, 3)
+    if rng.random() < 0.5:
+        edit_law(run, y, edit, smd_write, smd_read, G.snap_mesh)
     if any(len(v.links) > 1 for t in x.triangles for v in t):
         run.count('smd_multilink_meshes')
     return case['value'], G.mesh_nontrivial(x)
@@ -961,7 +1034,7 @@ def main(run, shard=(0, 1)) -> None:
     probe.report(run)
     probe.check_reached(run)
     run.require(*('cases_' + e for e in ENGINES))
-    run.require('sample_documents', 'image_summaries_checked', 'sndscript_ranges', 'smd_multilink_meshes', 'image_entries', 'image_merges')
+    run.require('sample_documents', 'image_summaries_checked', 'sndscript_ranges', 'smd_multilink_meshes', 'image_entries', 'image_merges', 'values_rewritten_after_edits')
     run.extra['restrictions'] = 'see rule'
 
 
